@@ -4,6 +4,7 @@ import (
 	"context"
 	"encoding/json"
 	"fmt"
+	"math"
 	"strings"
 
 	"github.com/theory/sqljson/path/ast"
@@ -121,6 +122,29 @@ func compareNumbers[T int | int64 | float64](left, right T) int {
 	return 0
 }
 
+// compareIntFloat compares an int64 to a float64 by their exact values and
+// returns 0, 1, or -1. Converting the integer to float64 first would round
+// integers beyond 2^53 and make, e.g., 2^53+1 equal to the double 2^53.
+func compareIntFloat(left int64, right float64) int {
+	const twoTo63 = 9223372036854775808.0
+	switch {
+	case math.IsNaN(right):
+		return compareNumbers(float64(left), right)
+	case right >= twoTo63:
+		return -1
+	case right < -twoTo63:
+		return 1
+	}
+
+	// right is within the int64 range: compare the integral parts exactly,
+	// then let the fractional part of right break the tie.
+	trunc := math.Trunc(right)
+	if cmp := compareNumbers(left, int64(trunc)); cmp != 0 {
+		return cmp
+	}
+	return compareNumbers(0, right-trunc)
+}
+
 // compareBool compares two numeric values and returns 0, 1, or -1. The left
 // and right params must be int64, float64, or json.Number values.
 func compareNumeric(left, right any) int {
@@ -130,14 +154,14 @@ func compareNumeric(left, right any) int {
 		case int64:
 			return compareNumbers(left, right)
 		case float64:
-			return compareNumbers(float64(left), right)
+			return compareIntFloat(left, right)
 		case json.Number:
 			if rightInt, err := right.Int64(); err == nil {
 				return compareNumbers(left, rightInt)
 			}
 			rightFloat, err := right.Float64()
 			if err == nil {
-				return compareNumbers(float64(left), rightFloat)
+				return compareIntFloat(left, rightFloat)
 			}
 			// This should not happen.
 			panic(err)
@@ -147,8 +171,11 @@ func compareNumeric(left, right any) int {
 		case float64:
 			return compareNumbers(left, right)
 		case int64:
-			return compareNumbers(left, float64(right))
+			return -compareIntFloat(right, left)
 		case json.Number:
+			if rightInt, err := right.Int64(); err == nil {
+				return -compareIntFloat(rightInt, left)
+			}
 			rightFloat, err := right.Float64()
 			if err == nil {
 				return compareNumbers(left, rightFloat)
